@@ -117,6 +117,11 @@ def commute(name, mk_ops):
         root = W.st
         a1, a2 = W.iv('amount1', 0, CAP), W.iv('amount2', 0, CAP)
         opA, opB = mk_ops(W, a1, a2)
+
+        def steps(T):
+            return [{'entry': 'execute', 'info': {'sender': T.string(snd), 'funds': []}, 'msg': T.value(m_)} for m_, snd in (opA, opB)]
+        W.st = root
+        raw_scenario(W, 'execute', None, None, querier=W.querier_template(), steps=steps)
         ab = list(run_seq(W, root.clone(), [opA, opB]))
         ba = list(run_seq(W, root.clone(), [opB, opA]))
         ctx.ob.paths += len(ab) + len(ba)
@@ -149,6 +154,35 @@ def ops_claim_claim(W, a1, a2):
     return (W.mk.variant(MSG, 'ClaimRewards', crate='basset', recipient=NONE), W.addr_c), (W.mk.variant(MSG, 'ClaimRewards', crate='basset', recipient=NONE), W.addr_o)
 
 
+def replay_commute(v, run_scenario):
+    """both orders on the real contract from the model's state: final storage and the payout of each operation must agree"""
+    from smir import tojson
+    import copy
+    tojson.set_string_names({int(k): s_ for k, s_ in v.get('strings', {}).items()})
+    scn = tojson.instantiate(v['scenario_t'], v['model'])
+    out_ab = run_scenario(scn)
+    scn2 = copy.deepcopy(scn)
+    scn2['steps'] = list(reversed(scn2['steps']))
+    out_ba = run_scenario(scn2)
+    if 'error' in out_ab or 'error' in out_ba:
+        return {'status': 'unavailable', 'detail': str(out_ab.get('error') or out_ba.get('error'))}
+    ra, rb = out_ab['results'], out_ba['results']
+    if not all('ok' in r for r in ra + rb):
+        return {'status': 'mismatch', 'scenario': scn, 'output': {'ab': out_ab, 'ba': out_ba}, 'oracle': [],
+                'detail': 'an operation fails in one of the orders on the real code (the claim is about pairs that succeed)'}
+
+    def pay(r):
+        return sorted(str(sm['msg']) for sm in r['ok']['messages'])
+    bad = []
+    if sorted(map(tuple, out_ab['storage'])) != sorted(map(tuple, out_ba['storage'])):
+        bad.append('final storage differs between the two orders')
+    if pay(ra[0]) != pay(rb[1]) or pay(ra[1]) != pay(rb[0]):
+        bad.append('messages (payouts) of an operation depend on the order: %r / %r' % ([pay(x) for x in ra], [pay(x) for x in rb]))
+    return {'status': 'reproduced' if bad else 'mismatch', 'scenario': scn, 'output': {'ab': out_ab, 'ba': out_ba}, 'oracle': bad,
+            'detail': '' if bad else 'real code satisfies the claim on the model input'}
+
+
+REPLAY = {'commute_increase_decrease': replay_commute, 'commute_claim_increase': replay_commute, 'commute_claim_claim': replay_commute}
 OBLIGATIONS = [(v, step(v)) for v in ('UpdateGlobalIndex', 'IncreaseBalance', 'DecreaseBalance', 'ClaimRewards')] + \
     [('commute_increase_decrease', commute('inc_dec', ops_inc_dec)), ('commute_claim_increase', commute('claim_inc', ops_claim_inc)),
      ('commute_claim_claim', commute('claim_claim', ops_claim_claim))]
@@ -183,10 +217,14 @@ def ORACLE(v, scn, out):
             h0, h1 = others0.get(k), others1.get(k)
             if (int(h0['balance']) if h0 else 0) != (int(h1['balance']) if h1 else 0) or acc(h0, G0) != acc(h1, G0):
                 bad.append('another holder was modified')
-    elif what == 'frame_index' and G0 != G1:
-        bad.append('global index changed')
-    elif what == 'settle' and acc(pre.get(kc), G0) != acc(post.get(kc), G1):
-        bad.append('accrued reward of the holder changed from %d to %d atomics' % (acc(pre.get(kc), G0), acc(post.get(kc), G1)))
+    elif what == 'frame_index':
+        if G0 != G1:
+            bad.append('global index changed')
+    elif what == 'settle':
+        if acc(pre.get(kc), G0) != acc(post.get(kc), G1):
+            bad.append('accrued reward of the holder changed from %d to %d atomics' % (acc(pre.get(kc), G0), acc(post.get(kc), G1)))
+    elif what == 'fails':
+        return []
     elif what == 'balance':
         body = list(scn['msg'].values())[0]
         b0 = int(pre[kc]['balance']) if kc in pre else 0
